@@ -118,7 +118,27 @@ def run_nest(scen):
         return ["get_code raised %r" % (ex,)]
     if got is not code:
         return ["get_code(top, %s) is %r but the code that runs is %r" % (scen["path"], got, code)]
-    return []
+    # a registration through (target, *names) applies to frames running exactly that code, in every calling form
+    bad = []
+
+    class F:
+        pass
+    fr = F()
+    fr.f_code = code
+    for form in ("decorator", "direct positional", "func keyword"):
+        disp = lowlevel.code_dispatch(lambda f: f.f_code)(lambda f: "default")
+        handler = (lambda f: "special")
+        if form == "decorator":
+            ret = disp.register(ns["top"], *scen["path"])(handler)
+        elif form == "direct positional":
+            ret = disp.register(ns["top"], *(list(scen["path"]) + [handler]))
+        else:
+            ret = disp.register(ns["top"], *scen["path"], func=handler)
+        if ret is not handler:
+            bad.append("register(top, %s) in the %s form did not return the implementation" % (scen["path"], form))
+        if disp(fr) != "special":
+            bad.append("register(top, %s) in the %s form registered nothing for the nested function's code" % (scen["path"], form))
+    return bad
 
 
 # ------------------------------------------------------------------ customize
